@@ -190,7 +190,7 @@ def c07(F: Facts):
         entry = F.direct_buses(ev)
         if not entry:
             continue
-        reach = {f'B{i}' for i in F.reachable(entry, typ)}
+        reach = {F.bname[i] for i in F.reachable(entry, typ)}
         got_enq = [b for (b, e), idxs in F.enq.items() if e == ev]
         got_run = {b for (b, e) in F.first_enter if e == ev}
         extra = set(got_enq) - reach
